@@ -14,6 +14,24 @@ CLAIMED = {
         "regenerated tables (Tie A) and exhaustive differential execution up to 8/11 accidentals plus malformed streams (Tie B).",
    note=TRUST + "The empty string (IndexError) is outside the property and guarded explicitly.",
    design="§4 C01"),
+ "C02": dict(
+   text="Lean theorem ctor_spec: for every (step, semitone) row of the constructor table and every valid name with any number "
+        "and order of accidentals the result is valid, on the required letter, exactly the defining semitones above, unmixed, "
+        "<=6 accidentals (closed form of the augment/diminish loop by induction on fuel + normalisation arithmetic); measure and "
+        "the four consonance predicates are the stated functions. Unison clause: letter/semitone proved for all inputs; the "
+        "unmixed/<=6 clause only _partial (canonical input, <=5 accidentals) with a kernel-checked counterexample = known finding "
+        "C02-unison-passthrough. Constructor rows regenerated from intervals.py and proved equal to the model's (Tie A); "
+        "17 constructors x all names <=6/8 accidentals differential (Tie B).",
+   note=TRUST + "Known finding C02-unison-passthrough is listed in known_findings.json with a matcher on (constructor is a unison, "
+        "input mixed or >=6 accidentals); any other failure is a violation.",
+   design="§4 C02"),
+ "C04": dict(
+   text="Whole-table kernel evaluation (decide +kernel) of everything the statement says about each of the 30 keys, the 15 "
+        "relative couples, the key objects and signature<->key inversion; unbounded theorems for rejections (any string, any "
+        "integer) and for diatonic steps of notes with any accidentals (reduction to the 30x7x7 table). Key table, base scale, "
+        "fifths and step numbers regenerated from the source (Tie A); exhaustive differential run (Tie B).",
+   note=TRUST + "The memo table _key_cache is modelled as transparent here (C15 owns that).",
+   design="§4 C04"),
 }
 PENDING_REASON = "check not built yet in this session (in progress; see DESIGN.md §10 build order)"
 
